@@ -123,6 +123,7 @@ func c05RenameDuringClose(c *ev.Ctx) {
 
 func runC05(c *ev.Ctx) {
 	c05RenameDuringClose(c)
+	c05RemoveDuringRename(c)
 	c05Sequences(c)
 	c05CutPoints(c)
 	c05InFlight(c)
@@ -598,5 +599,84 @@ func c05Burst(c *ev.Ctx) {
 		}
 		c.Case(fmt.Sprintf("burst:%s:%d", wire.TypeName(unbind), si%4), true)
 		c.Count("burst_frames", int64(5*reps))
+	}
+}
+
+// (8) a Tremove that arrives while a rename of the same entry is inside the
+// backend. The directory fid the entry was walked from has been clunked: the
+// File behind it lives only through the entry's parent reference, and the
+// rename - made through another fid of the directory - re-parents the entry and
+// drops it. Whatever the Tremove had looked at before it had to wait, it may not
+// call UnlinkAt on that closed File.
+func c05RemoveDuringRename(c *ev.Ctx) {
+	for i, variant := range []string{"same-dir", "same-dir-other-conn", "cross-dir", "trename"} {
+		if !c.Mine(i + 4) {
+			continue
+		}
+		hungFlag = false
+		c.Begin("C05 remove during parked rename " + variant)
+		w, ok := newConcWorld(2)
+		if !ok {
+			c.Inconclusive("remove-during-rename world")
+			w.close()
+			continue
+		}
+		ca := w.conns[0]
+		cb := ca
+		if variant == "same-dir-other-conn" {
+			cb = w.conns[1]
+		}
+		d1, ok1 := ca.fidAt("/a", 'u', true)
+		ca.next++
+		x := ca.next
+		ok1 = ok1 && ca.s.walk(d1, x, "g").Errno() == 0 && ca.s.clunk(d1).Errno() == 0
+		d3, ok2 := cb.fidAt("/a", 'u', true)
+		var x2 uint64
+		if variant == "trename" {
+			// the rename is a Trename through a second fid on the entry
+			x2, ok2 = cb.fidAt("/a/g", 'u', false)
+		}
+		if !ok1 || !ok2 {
+			c.Inconclusive("remove-during-rename setup")
+			w.close()
+			continue
+		}
+		g := w.fs.Hold(memfs.Match{Method: "RenameAt"}, 1)
+		fromB := cb.p.NReplies()
+		switch variant {
+		case "cross-dir":
+			cb.p.Send(wire.Trenameat, 90, d3, "g", u(801), "g2")
+		case "trename":
+			cb.p.Send(wire.Trename, 90, x2, d3, "g2")
+		default:
+			cb.p.Send(wire.Trenameat, 90, d3, "g", d3, "g2")
+		}
+		if o, _ := g.WaitParked(1); o != quiesce.CondMet {
+			g.Release()
+			c.Case("remove-during-rename:"+variant+":not-parked", false)
+			w.close()
+			continue
+		}
+		fromA := ca.p.NReplies()
+		ca.p.Send(wire.Tremove, 91, x)
+		// the Tremove gets as far as it can (it waits for the rename)
+		quiesce.WaitUntil(func() bool { return ca.p.HasReplyFrom(91, fromA) != nil }, 20*time.Second)
+		g.Release()
+		det := map[string]any{"scenario": variant}
+		if _, ok, o, d := cb.p.WaitTag(90, fromB); !ok {
+			hang(c, o, d, "C05:rename-never-answered:remove-during-rename:"+variant, det)
+		}
+		if _, ok, o, d := ca.p.WaitTag(91, fromA); !ok {
+			hang(c, o, d, "C05:remove-never-answered:remove-during-rename:"+variant, det)
+		}
+		out, dump := ca.p.Close()
+		hang(c, out, dump, "C05:Handle-does-not-return:remove-during-rename:"+variant, det)
+		if cb != ca {
+			out, dump = cb.p.Close()
+			hang(c, out, dump, "C05:Handle-does-not-return:remove-during-rename:"+variant, det)
+		}
+		w.conns[1].p.Close()
+		c05Final(c, w.fs, w.srv, "remove-during-rename "+variant, det)
+		c.Case("remove-during-rename:"+variant, true)
 	}
 }
